@@ -53,13 +53,42 @@ def gen_cmdline_suppressions(rng, units, n=None):
     return [s for i, s in enumerate(out) if s not in out[:i]]
 
 
+def suppression_args(scn, wd):
+    """The scenario's suppressions as --suppress= options, or the same entries through a --suppressions-list file or a
+    --suppress-xml file (scn["suppr_via"])."""
+    sup = list(scn.get("suppr", []))
+    via = scn.get("suppr_via", "cmdline")
+    if via == "cmdline" or not sup:
+        return sup
+    entries = [x[len("--suppress="):] for x in sup]
+    if via == "list":
+        path = os.path.join(wd, "suppressions.txt")
+        with open(path, "w") as f:
+            f.write("# generated\n" + "\n".join(entries) + "\n")
+        return ["--suppressions-list=" + path]
+    from xml.sax.saxutils import escape
+    path = os.path.join(wd, "suppressions.xml")
+    with open(path, "w") as f:
+        f.write('<?xml version="1.0"?>\n<suppressions>\n')
+        for e in entries:
+            p = e.split(":")
+            f.write("  <suppress><id>%s</id>" % escape(p[0]))
+            if len(p) > 1:
+                f.write("<fileName>%s</fileName>" % escape(p[1]))
+            if len(p) > 2:
+                f.write("<lineNumber>%s</lineNumber>" % p[2])
+            f.write("</suppress>\n")
+        f.write("</suppressions>\n")
+    return ["--suppress-xml=" + path]
+
+
 def run_pair(scn, wd, out, variant="plain", text_channel=False):
     """Executes reference and subjects; returns (ref, [(run, result)...]) or None if unusable."""
     tree_dir = os.path.join(wd, "tree")
     os.makedirs(tree_dir, exist_ok=True)
     core.write_tree(tree_dir, gen.join_tree(scn["tree"]))
     units = list(scn["units"])
-    oargs = gen.flatten_opts(scn.get("opts", {})) + list(scn.get("suppr", []))
+    oargs = gen.flatten_opts(scn.get("opts", {})) + suppression_args(scn, wd)
     if scn.get("exitcode") is not None:
         oargs.append("--error-exitcode=%d" % scn["exitcode"])
     bdn = [0]
@@ -73,8 +102,19 @@ def run_pair(scn, wd, out, variant="plain", text_channel=False):
         return ["--cppcheck-build-dir=../" + d], ["../" + d]
 
     std = ["-q", core.TEXT_TEMPLATE] if scn.get("channel") == "text" else STD
-    b, roots = bd_args()
     strip = tree_dir if scn.get("project") else None
+    if scn.get("nofail_cover"):
+        # exitcode suppressions covering every id a probing run reports (all but one for "but-one"): only then do they,
+        # and their transfer to the workers, decide the exit status
+        probe = core.run_sim(variant, tree_dir, STD + oargs + ["-j1"] + input_args(scn, units, tree_dir, wd, "probe"), plan=None, tag="probe", strip=strip)
+        ids = sorted(set(f.id for f in probe.findings if f.id not in core.META_IDS))
+        if scn["nofail_cover"] == "but-one" and ids:
+            del ids[len(ids) // 2]
+        if ids:
+            with open(os.path.join(wd, "nofail.txt"), "w") as f:
+                f.write("\n".join(ids) + "\n")
+            oargs.append("--exitcode-suppressions=" + os.path.join(wd, "nofail.txt"))
+    b, roots = bd_args()
     ref = core.run_sim(variant, tree_dir, std + oargs + b + ["-j1"] + input_args(scn, units, tree_dir, wd, "ref"), plan=None, tag="ref", strip=strip)
     res = []
     for i, run in enumerate(scn["subjects"]):
@@ -186,6 +226,12 @@ def exec_candidates(scn):
     if scn.get("channel") == "text":
         c = copy.deepcopy(scn); c["channel"] = "xml"
         yield c
+    if scn.get("suppr_via", "cmdline") != "cmdline":
+        c = copy.deepcopy(scn); c["suppr_via"] = "cmdline"
+        yield c
+    if scn.get("nofail_cover"):
+        c = copy.deepcopy(scn); c["nofail_cover"] = None
+        yield c
     for i in range(len(scn.get("suppr", []))):
         c = copy.deepcopy(scn); del c["suppr"][i]
         yield c
@@ -209,5 +255,5 @@ def exec_candidates(scn):
 
 def describe_exec(scn):
     return {"units": scn["units"], "opts": gen.flatten_opts(scn.get("opts", {})) + scn.get("suppr", []), "build_dir": bool(scn.get("bd")), "channel": scn.get("channel", "xml"),
-            "error_exitcode": scn.get("exitcode"), "compile_commands": scn.get("project"),
+            "error_exitcode": scn.get("exitcode"), "compile_commands": scn.get("project"), "exitcode_suppressions": scn.get("nofail_cover"),
             "subjects": [" ".join(exec_args(r)) + "".join(" %s=%s" % (k, r[k]) for k in ("sched", "sel_timeout", "wait_lag", "loadavg") if r.get(k)) for r in scn["subjects"]]}
